@@ -184,6 +184,50 @@ def mutation_canary(unit, c, idx, pid=None):
     ok = j["status"] in ("fail",) or (j["status"] == "undecided" and c.get("undecided_ok"))
     return {"name": c["name"], "ok": ok, "status": j["status"], "fails": j["fails"], "tool": j["tool"]}
 
+def seeded_canaries(pid, units):
+    """regression canaries: every kept seeded change of this property that the check is recorded to catch
+    (seeded/<pid>-X/meta.json "detected": true) is applied to a scratch overlay of the current sources and must be rejected."""
+    import glob, shutil
+    out = []
+    for d in sorted(glob.glob(os.path.join(VERIF, "seeded", pid + "-*"))):
+        name = os.path.basename(d)
+        try: meta = json.load(open(os.path.join(d, "meta.json")))
+        except Exception: continue
+        if not meta.get("detected"): continue
+        patch = os.path.join(d, "patch.diff")
+        files = re.findall(r"^\+\+\+ b/(\S+)", open(patch, errors="replace").read(), re.M)
+        ov = os.path.join(R.BUILD, "seedov-" + name)
+        shutil.rmtree(ov, ignore_errors=True); os.makedirs(ov)
+        ls = subprocess.run("git ls-files | grep -E '\\.rs$'", shell=True, cwd=U.REPO, capture_output=True, text=True).stdout
+        subprocess.run(["rsync", "-a", "--files-from=-", U.REPO + "/", ov + "/"], input=ls, text=True, capture_output=True)
+        # GIT_CEILING_DIRECTORIES: the overlay sits inside /verif's own repository; without it `git apply` would silently
+        # skip every path (they are outside the current subdirectory of that repository)
+        ap = subprocess.run(["git", "apply", "--whitespace=nowarn", patch], cwd=ov, capture_output=True, text=True,
+                            env=dict(os.environ, GIT_CEILING_DIRECTORIES=os.path.dirname(ov)))
+        changed = any(open(os.path.join(ov, f), "rb").read() != open(os.path.join(U.REPO, f), "rb").read() for f in files if os.path.exists(os.path.join(ov, f)) and os.path.exists(os.path.join(U.REPO, f)))
+        if ap.returncode != 0 or not changed:
+            out.append({"name": name, "ok": None, "why": "patch no longer applies to the current source; skipped"})
+            shutil.rmtree(ov, ignore_errors=True); continue
+        cands = [u for u in units if any(f in open(os.path.join(VERIF, "units", u + ".rs")).read() for f in files)] or list(units)
+        res = {"name": name, "ok": False, "units": cands, "status": {}}
+        for u in cands:
+            code = ("import sys,json; sys.path.insert(0,%r); import os; os.environ['VERIF_REPO']=%r\n"
+                    "from vf import unit as U, run as R\n"
+                    "U.REPO=%r\n"
+                    "r=R.run_unit(%r, True, None, %r, None, 8, None, %r)\n"
+                    "print(json.dumps({'status':r.status,'fails':[e['obligation'] for e in r.failures][:3]}))\n"
+                    % (VERIF, ov, ov, u, "-seed-" + name, pid))
+            pr = subprocess.run(["python3", "-c", code], capture_output=True, text=True)
+            try: j = json.loads(pr.stdout.strip().split("\n")[-1])
+            except Exception: j = {"status": "runner-error", "fails": [pr.stderr[-200:]]}
+            res["status"][u] = j["status"]
+            if j["status"] == "fail":
+                res["ok"] = True; res["rejected_by"] = j["fails"]; break
+        shutil.rmtree(ov, ignore_errors=True)
+        for bd in glob.glob(os.path.join(R.BUILD, "*-seed-" + name + "*")): shutil.rmtree(bd, ignore_errors=True)
+        out.append(res)
+    return out
+
 def thorough(pid, units, results, seed):
     rep = {"vacuity": [], "mutation_canaries": []}
     out = {"violations": [], "tool": [], "obligations": 0, "discharged": 0, "report": rep}
@@ -208,6 +252,12 @@ def thorough(pid, units, results, seed):
         out["obligations"] += 1
         if m["ok"]: out["discharged"] += 1
         else: out["tool"].append((u, "mutation canary `%s` was NOT rejected (status %s)" % (m["name"], m.get("status"))))
+    rep["seeded_canaries"] = seeded_canaries(pid, units)
+    for m in rep["seeded_canaries"]:
+        if m["ok"] is None: continue
+        out["obligations"] += 1
+        if m["ok"]: out["discharged"] += 1
+        else: out["tool"].append(("seeded", "seeded change %s (recorded as detected) was NOT rejected: %s" % (m["name"], m.get("status"))))
     sanity = spec_sanity(pid, seed)
     if sanity is not None:
         rep["spec_sanity"] = sanity
